@@ -179,6 +179,9 @@ pub struct LiveActor {
     /// Sync state per replica and peer
     state: NamespaceStates,
     metrics: Arc<Metrics>,
+    /// Verification hook: when set, started dials are recorded here instead of being connected.
+    #[cfg(feature = "verif")]
+    verif_dials: Option<Vec<(NamespaceId, PublicKey, SyncReason)>>,
 }
 impl LiveActor {
     /// Create the live actor.
@@ -217,6 +220,8 @@ impl LiveActor {
             queued_hashes: Default::default(),
             hash_providers: Default::default(),
             metrics,
+            #[cfg(feature = "verif")]
+            verif_dials: None,
         })
     }
 
@@ -363,6 +368,11 @@ impl LiveActor {
     #[instrument("connect", skip_all, fields(peer = %peer.fmt_short(), namespace = %namespace.fmt_short()))]
     fn sync_with_peer(&mut self, namespace: NamespaceId, peer: PublicKey, reason: SyncReason) {
         if !self.state.start_connect(&namespace, peer, reason) {
+            return;
+        }
+        #[cfg(feature = "verif")]
+        if let Some(dials) = self.verif_dials.as_mut() {
+            dials.push((namespace, peer, reason));
             return;
         }
         let endpoint = self.endpoint.clone();
@@ -825,6 +835,53 @@ impl LiveActor {
     ) -> AcceptOutcome {
         self.state
             .accept_request(&self.endpoint.id(), &namespace, peer)
+    }
+}
+
+/// Verification hooks (cargo feature `verif`): drive the coordination handlers of the live actor
+/// directly, without a network. Started dials are captured instead of connected.
+#[cfg(feature = "verif")]
+impl LiveActor {
+    /// Record started dials instead of spawning `connect_and_sync`.
+    pub fn verif_capture_dials(&mut self) {
+        self.verif_dials = Some(Vec::new());
+    }
+    /// Take the dials started since the last call.
+    pub fn verif_take_dials(&mut self) -> Vec<(NamespaceId, PublicKey, SyncReason)> {
+        self.verif_dials.as_mut().map(std::mem::take).unwrap_or_default()
+    }
+    /// Put a document into the sync set (what `start_sync` does after opening the replica).
+    pub fn verif_set_syncing(&mut self, namespace: NamespaceId) {
+        self.state.insert(namespace);
+    }
+    /// `sync_with_peer`
+    pub fn verif_dial(&mut self, namespace: NamespaceId, peer: PublicKey, reason: SyncReason) {
+        self.sync_with_peer(namespace, peer, reason)
+    }
+    /// The `running_sync_connect` arm of the actor loop.
+    pub async fn verif_connect_finished(
+        &mut self,
+        namespace: NamespaceId,
+        peer: PublicKey,
+        reason: SyncReason,
+        result: Result<SyncFinished, ConnectError>,
+    ) {
+        self.on_sync_via_connect_finished(namespace, peer, reason, result)
+            .await
+    }
+    /// The `running_sync_accept` arm of the actor loop.
+    pub async fn verif_accept_finished(&mut self, res: Result<SyncFinished, AcceptError>) {
+        self.on_sync_via_accept_finished(res).await
+    }
+    /// `on_sync_report` with a report carrying the given encoded heads.
+    pub async fn verif_sync_report(&mut self, from: PublicKey, namespace: NamespaceId, heads: Vec<u8>) {
+        self.on_sync_report(from, SyncReport { namespace, heads })
+            .await
+    }
+    /// (slot, resync_requested) for a document and peer: slot 0 = idle, 1 = running (connect),
+    /// 2 = running (accept); `None` if the document is not in the sync set or the peer unknown.
+    pub fn verif_slot(&self, namespace: &NamespaceId, peer: &PublicKey) -> Option<(u8, bool)> {
+        self.state.verif_slot(namespace, peer)
     }
 }
 
